@@ -300,9 +300,9 @@ class Assembler:
         for (a, b, new, kind) in edits:
             if not (s <= a <= b <= e):
                 continue
-            ev.append((a, 0, b, new, None))
+            ev.append((a, 1, b, new, None))
         for (pos, lines) in splices:
-            ev.append((pos, 1, pos, None, lines))
+            ev.append((pos, 0, pos, None, lines))
         ev.sort(key=lambda x: (x[0], x[1]))
         # overlap check
         last = s
@@ -502,7 +502,7 @@ class Assembler:
                 m = re.fullmatch(r'(\d+)\s+`(.*)`', sarg.strip())
                 if not m:
                     raise LostAnchor('%s:%d: bad %s syntax' % (rel, no, cmd))
-                n, text = int(m.group(1)), m.group(2)
+                n, text = int(m.group(1)), m.group(2).replace('\\n', '\n')
                 pos = self._nth(sf, ct[body_open].start, e, text, n, '%s:%d' % (rel, no))
                 if cmd == 'after':
                     pos += len(text)
